@@ -43,7 +43,7 @@ def run(ctx):
                      (c.target_path.endswith("Brc20ProgDatabase::new") or c.target_path.endswith("start_rpc_server") or c.target_path.endswith("BRC20ProgEngine::new"))]
             R.floor("start_open_calls", len(opens), 3)
             for o in opens:
-                R.ob(sf.dominates(gate.bb, o.bb) and gate.bb != o.bb, "DOM-before", o.where(), "DOM-before|start|gate<%s" % o.target_path.split("::")[-2],
+                R.ob(sf.sdominates(gate.bb, o.bb) and gate.bb != o.bb, "DOM-before", o.where(), "DOM-before|start|gate<%s" % o.target_path.split("::")[-2],
                      "%s is reachable without passing the configuration gate" % o.target_path, sample={"rule": "DOM-before", "a": "validate_config_database", "b": o.target_path.split("::")[-2] + "::" + o.target_path.split("::")[-1]})
             a = origin(sf, gate.args[0])
             R.ob(mentions(a, "config"), "WIRE", gate.where(), "WIRE|start|gate-arg", "the gate validates `%s`, not the configuration being started" % show(a))
@@ -131,12 +131,12 @@ def run(ctx):
         for c in vals:
             R.ob(not any(x.bb not in v.reachable(fresh_sw) for x in [c]), "DOM-before", c.where(), "DOM-before|config|fresh<validate", "validate not under the freshness decision")
     fl = [c for c in v.calls() if (c.method or "") == "flush" and not v.is_cleanup(c.bb)]
-    R.ob(bool(fl) and all(all(v.dominates(s.bb, f.bb) for s in sets) for f in fl) and err_propagated(v, fl[0]), "DOM-order", v.where(), "DOM-order|config|flush",
+    R.ob(bool(fl) and all(all(v.sdominates(s.bb, f.bb) for s in sets) for f in fl) and err_propagated(v, fl[0]), "DOM-order", v.where(), "DOM-order|config|flush",
          "the recorded configuration is not flushed after the four writes", sample={"rule": "DOM-order", "first": "4 x set", "then": "flush"})
     # 4. freshness before creation
     rd = [c for c in v.calls() if (c.method or "") == "read_dir" and not v.is_cleanup(c.bb)]
     nw = [c for c in v.calls() if (c.target_path or "").endswith("ConfigDatabase::new") and not v.is_cleanup(c.bb)]
-    R.ob(bool(rd) and bool(nw) and v.dominates(rd[0].bb, nw[0].bb) and err_propagated(v, rd[0]), "DOM-before", v.where(), "DOM-before|config|read_dir<open",
+    R.ob(bool(rd) and bool(nw) and v.sdominates(rd[0].bb, nw[0].bb) and err_propagated(v, rd[0]), "DOM-before", v.where(), "DOM-before|config|read_dir<open",
          "freshness (read_dir) is not decided before the config database is created inside the directory",
          sample={"rule": "DOM-before", "a": "read_dir", "b": "ConfigDatabase::new"})
     isd = None
